@@ -22,3 +22,15 @@ for r in rows:
     out.append("| " + " | ".join(r) + " |")
 open("/verif/seeded/README.md", "w").write("\n".join(out) + "\n")
 print(len(rows), "rows")
+
+# compact table for DESIGN.md section 8 (between the markers)
+comp = ["| change | site and effect (as written by the seeding agent) | caught by | first signature | note |", "|---|---|---|---|---|"]
+for r in rows:
+    comp.append(f"| {r[0]} | {r[2][:150]} | {r[4]} | `{r[6][:70]}` | {r[7]} |")
+dp = "/verif/DESIGN.md"
+d = open(dp).read()
+b, e = "<!-- seeded-table-begin -->", "<!-- seeded-table-end -->"
+if b in d and e in d:
+    d = d[:d.index(b) + len(b)] + "\n" + "\n".join(comp) + "\n" + d[d.index(e):]
+    open(dp, "w").write(d)
+    print("DESIGN.md table updated")
